@@ -6,8 +6,10 @@ import (
 	"strings"
 
 	"github.com/youchainhq/go-youchain/common"
+	"github.com/youchainhq/go-youchain/core/state"
 	"github.com/youchainhq/go-youchain/core/types"
 	"github.com/youchainhq/go-youchain/params"
+	"github.com/youchainhq/go-youchain/staking"
 
 	"verif/mc"
 )
@@ -20,7 +22,12 @@ type Hooks struct {
 	// Warm: every explored path is also built block by block on ONE node that is never reopened (warm caches from
 	// genesis on); its head must equal the head of the explored lineage, whose nodes are reopened from a database
 	// copy before every block (cold caches).  Execution must not depend on cache contents (C06).
-	Warm     bool
+	Warm bool
+	// Worker: every block is also assembled by the REAL miner worker (miner.worker.commitNewWork through the hook
+	// miner.VerifBuildBlock, fed by a real core.TxPool) on a copy of the pre-block node; its block must be accepted
+	// unchanged by an independent importer, and must agree with the mirror builder's block on every header field but
+	// Time and on the transactions (worker.go).  Applied to the blocks of the scripted prefix as well.
+	Worker   bool
 	PerBlock func(h *Hist, op string, b *Built, pre *Node) []mc.Violation
 }
 
@@ -40,6 +47,8 @@ type Hist struct {
 	viols   []mc.Violation
 	dead    bool
 	inPre   bool
+	// violations of the worker oracles in blocks of the scripted prefix: reported with the first explored block
+	preViols []mc.Violation
 }
 
 func (h *Hist) Reset() {
@@ -48,7 +57,7 @@ func (h *Hist) Reset() {
 	}
 	h.Node = NewNode(h.F)
 	h.Txs = map[common.Hash]TxInfo{}
-	h.viols, h.dead, h.Path = nil, false, nil
+	h.viols, h.dead, h.Path, h.preViols = nil, false, nil, nil
 	s, err := SupplyOf(h.Node, h.Txs)
 	if err != nil {
 		panic(err)
@@ -96,8 +105,58 @@ func (h *Hist) Enabled() []string {
 	if h.dead {
 		return nil
 	}
-	return h.Menu
+	// driver assumption (consensus eligibility): the proposer of block n is an
+	// online chamber validator of the stake look-back state (n - StakeLookBack),
+	// which is where the sortition of the real engine draws proposers from
+	var ops []string
+	elig := map[string]bool{}
+	var lb *state.StateDB
+	for _, op := range h.Menu {
+		cb := op[:strings.Index(op, ":")]
+		ok, seen := elig[cb]
+		if !seen {
+			if lb == nil {
+				lb = h.lookBackState()
+			}
+			ok = h.eligibleIn(lb, cb)
+			elig[cb] = ok
+		}
+		if ok {
+			ops = append(ops, op)
+		}
+	}
+	return ops
 }
+
+func (h *Hist) lookBackState() *state.StateDB {
+	if h.Node == nil {
+		return nil
+	}
+	n := h.Node.Head().NumberU64() + 1
+	lb := uint64(0)
+	if n > V5().StakeLookBack {
+		lb = n - V5().StakeLookBack
+	}
+	hd := h.Node.BC.GetHeaderByNumber(lb)
+	if hd == nil {
+		return nil
+	}
+	st, err := h.Node.BC.StateAt(hd.Root, hd.ValRoot, hd.StakingRoot)
+	if err != nil {
+		return nil
+	}
+	return st
+}
+
+func (h *Hist) eligibleIn(st *state.StateDB, cb string) bool {
+	if st == nil {
+		return true
+	}
+	v := st.GetValidatorByMainAddr(h.F.Val(cb).Main)
+	return v != nil && v.IsOnline() && v.Role != params.RoleHouse
+}
+
+func (h *Hist) eligible(cb string) bool { return h.eligibleIn(h.lookBackState(), cb) }
 
 func (h *Hist) Check() []mc.Violation { return h.viols }
 
@@ -184,9 +243,11 @@ func (h *Hist) Apply(op string) string {
 		h.Txs[tx.Hash()] = TxInfo{Op: t, Escrow: escrowOf(h.F, t)}
 		txs = append(txs, tx)
 	}
+	var evs []staking.Evidence
 	for _, e := range evOps {
 		for _, ev := range h.F.MkEvidence(h.Node, e) {
 			h.Node.Staking.VerifAddEvidence(ev)
+			evs = append(evs, ev)
 		}
 	}
 	var built *Built
@@ -207,10 +268,19 @@ func (h *Hist) Apply(op string) string {
 		return "ERR " + berr.Error()
 	}
 	ob := fmt.Sprintf("#%d txs=%d/%d status=%s", built.Block.NumberU64(), len(built.Included), len(txs), statuses(built))
+	var wviols []mc.Violation
+	if h.Hooks.Worker {
+		wviols = h.workerOracles(op, cb, txs, evs, built, pre)
+	}
 	if h.inPre {
+		h.preViols = append(h.preViols, wviols...)
 		return ob
 	}
 	h.Path = append(h.Path, op)
+	if len(h.Path) == 1 {
+		h.viols = append(h.viols, h.preViols...)
+	}
+	h.viols = append(h.viols, wviols...)
 	if h.Hooks.Warm {
 		h.warmReplay(built)
 	}
